@@ -11,9 +11,9 @@ from ..lang import refint
 
 PAYLOADS = ["int", "str", "list", "obj"]
 CARRIERS = ["var", "param", "result", "elem", "field", "builtin", "literal"]
-CONSTRUCTS = ["eqnil", "neqnil", "get", "or", "or-chain", "unwrap-stmt", "unwrap-if", "unwrap-while", "unwrap-expr",
+CONSTRUCTS = ["eqnil", "neqnil", "get", "or", "or-var", "or-chain", "unwrap-stmt", "unwrap-if", "unwrap-while", "unwrap-expr",
               "eq-plain", "plain-eq"]
-POSITIONS = ["same", "block", "loop", "else", "block2", "fn"]
+POSITIONS = ["same", "block", "loop", "else", "block2", "fn", "escaped"]
 
 TYPE = {"int": "int", "str": "str", "list": "[int...]", "obj": "C"}
 
@@ -103,6 +103,9 @@ def construct_stmts(payload, construct, X, carrier, is_present):
         return [("print", ("str", "before"))] + observe(payload, ("get", X), "got") + [("print", ("str", "after"))]
     if construct == "or":
         return observe(payload, ("or", X, ("call", V("lg"), [("int", 7)])), "or")
+    if construct == "or-var":
+        # the fallback is a variable (declared next to the carrier) that is mentioned nowhere else
+        return observe(payload, ("or", X, V("dflt")), "orv")
     if construct == "or-chain":
         inner = ("or", X, ("call", V("mk"), [("int", 0)]))
         return observe(payload, ("or", inner, ("call", V("lg"), [("int", 8)])), "orc")
@@ -137,7 +140,7 @@ def construct_stmts(payload, construct, X, carrier, is_present):
 
 
 def place(position, stmts):
-    if position == "same":
+    if position in ("same", "escaped"):
         return stmts
     if position == "block":
         return [("if", ("bool", True), stmts, None)]
@@ -176,10 +179,19 @@ def build(case):
         placed = [decl] + place(position, rest) + tail
     else:
         placed = place(position, body)
+    if construct == "or-var":
+        setup = setup + [("assign", "dflt", present(payload, True), None, ())]
+    if position == "escaped":
+        # carrier and fallback are locals of a function that has returned by the time the construct runs inside the closure it made
+        if wrap == "param" or decl_outside:
+            return None
+        owner = ("assign", "mkc", ("fn", [], "fn()", setup + [("return", ("fn", [], None, body))]), None, ())
+        return prelude(payload) + [owner, ("assign", "kc", ("call", V("mkc"), []), None, ()), ("expr", ("call", V("kc"), [])),
+                                   ("expr", ("call", V("kc"), [])), ("print", ("str", "end"))]
     if wrap == "param":
         val = present(payload) if is_present else ("nil",)
         fn = ("assign", "f", ("fn", [("x", T + "?")], "int", placed + [("return", ("int", 0))]), None, ())
-        main = [fn, ("print", ("call", V("f"), [val]))]
+        main = setup + [fn, ("print", ("call", V("f"), [val]))]
     else:
         main = setup + placed
     if position == "fn" and any(n in ("x", "l", "h", "hay") for n in _names(X)) and wrap != "param":
@@ -205,8 +217,8 @@ class C12(Check):
     level = "model_checking"
     rule = ("all programs (payload in {int, str, [int...], class C}) x (carrier in {variable, parameter, function result, list element, "
             "field, built-in result (index_of), literal}) x (nil | present) x (construct in {== nil (both operand orders), != nil, get, "
-            "(x) or y with a logging y, chained or, ?= as statement / expression value / if condition / while condition, present == plain, "
-            "plain == present}) x (position in {declaring block, nested block, else block, doubly nested block, loop body, nested function}) "
+            "(x) or y with a logging y, (x) or v with a variable mentioned nowhere else, chained or, ?= as statement / expression value / if condition / while condition, present == plain, "
+            "plain == present}) x (position in {declaring block, nested block, else block, doubly nested block, loop body, nested function, closure called after the function that made it (and owns carrier and fallback) has returned}) "
             "x (?= target declared in the same block | in the enclosing block).  Oracle = reference interpreter; for a failing `get` the "
             "error must name file and line of that `get` with a column inside it.")
     assumptions = ["objects are observed through a field, never printed", "the column of a failing get may point anywhere inside the get expression"]
